@@ -120,53 +120,57 @@ def main():
     cov = ev["coverage"]
 
     # ---------------------------------------------------------------- 1. translator + proofs
-    proof_broken = []   # descriptions of broken obligations
-    ok, msg = build.run_translate()
-    cov["translator"] = msg
-    if not ok:
-        proof_broken.append("translator: " + msg)
-    else:
-        # a section of the source the translator no longer recognises breaks the tie of exactly
-        # the properties that depend on it
-        try:
-            tinfo = json.load(open(os.path.join(ROOT, "build", "translate_info.json")))
-        except Exception:
-            tinfo = {}
-        for sec, why in tinfo.get("failed_sections", {}).items():
-            if pid in why.get("properties", []):
-                proof_broken.append("translator: section %s of the source is no longer recognised (%s); the model keeps the last known-good values" % (sec, why.get("why")))
-        # statement-level shape facts of the transcribed algorithms that no longer hold in the source
-        groups = [pid] + (["C15"] if pid == "C09" else [])
-        for grp in groups:
-            facts = dict(tinfo.get("flow_shapes", {}).get(grp, {}))
-            facts.update(tinfo.get("grid_shapes", {}).get(grp, {}))
-            for name, okf in facts.items():
-                if not okf:
-                    proof_broken.append("translator: the source no longer contains the statement the model transcribes: %s.%s (theorem Fs.Shapes.source_shape_%s)" % (grp, name, grp))
-    targets = ["fsmodel"] + list(P.get("lean_modules", []))
-    lake_ok, lake_out = build.lake_build(targets)
-    failed_modules = []
-    if not lake_ok:
-        import re
-        failed_modules = sorted(set(re.findall(r"^- (\S+)", lake_out, flags=re.M)))
-        errs = [l for l in lake_out.split("\n") if "error" in l][:12]
-        proof_broken.append("lake build failed: modules %s :: %s" % (failed_modules, " | ".join(errs)))
-    model_ok = os.path.exists(build.model_exe()) and not any(m.startswith("FsModel") or m in ("Main", "fsmodel") for m in failed_modules)
+    # one critical section: another check process working on a different source tree must not
+    # regenerate / rebuild the shared Lean model between our translate, build and audit
+    with build.build_lock("lean"):
+        proof_broken = []   # descriptions of broken obligations
+        ok, msg = build.run_translate()
+        cov["translator"] = msg
+        if not ok:
+            proof_broken.append("translator: " + msg)
+        else:
+            # a section of the source the translator no longer recognises breaks the tie of exactly
+            # the properties that depend on it
+            try:
+                tinfo = json.load(open(os.path.join(ROOT, "build", "translate_info.json")))
+            except Exception:
+                tinfo = {}
+            for sec, why in tinfo.get("failed_sections", {}).items():
+                if pid in why.get("properties", []):
+                    proof_broken.append("translator: section %s of the source is no longer recognised (%s); the model keeps the last known-good values" % (sec, why.get("why")))
+            # statement-level shape facts of the transcribed algorithms that no longer hold in the source
+            groups = [pid] + (["C15"] if pid == "C09" else [])
+            for grp in groups:
+                facts = dict(tinfo.get("flow_shapes", {}).get(grp, {}))
+                facts.update(tinfo.get("grid_shapes", {}).get(grp, {}))
+                for name, okf in facts.items():
+                    if not okf:
+                        proof_broken.append("translator: the source no longer contains the statement the model transcribes: %s.%s (theorem Fs.Shapes.source_shape_%s)" % (grp, name, grp))
+        targets = ["fsmodel"] + list(P.get("lean_modules", []))
+        lake_ok, lake_out = build.lake_build(targets)
+        failed_modules = []
+        if not lake_ok:
+            import re
+            failed_modules = sorted(set(re.findall(r"^- (\S+)", lake_out, flags=re.M)))
+            errs = [l for l in lake_out.split("\n") if "error" in l][:12]
+            proof_broken.append("lake build failed: modules %s :: %s" % (failed_modules, " | ".join(errs)))
+        model_ok = os.path.exists(build.model_exe()) and not any(m.startswith("FsModel") or m in ("Main", "fsmodel") for m in failed_modules)
 
-    # ---------------------------------------------------------------- 2. audit
-    a = audit.run_audit(P, lake_ok)
-    cov["obligations"] = a["obligations"]
-    cov["discharged"] = a["discharged"] if not proof_broken else min(a["discharged"], max(0, a["obligations"] - 1))
-    cov["checker_cmd"] = a["checker_cmd"]
-    cov["trusted_base"] = a["trusted_base"] + P.get("trusted_base", [])
-    cov["theorems"] = a["theorems"]
-    for b in a["bad"]:
-        proof_broken.append("audit: " + b)
-    if tier == "thorough" and lake_ok:
-        lc = audit.run_leanchecker(P)
-        cov["leanchecker"] = lc["summary"]
-        for b in lc["bad"]:
-            proof_broken.append("leanchecker: " + b)
+        # ---------------------------------------------------------------- 2. audit
+        a = audit.run_audit(P, lake_ok)
+        cov["obligations"] = a["obligations"]
+        cov["discharged"] = a["discharged"] if not proof_broken else min(a["discharged"], max(0, a["obligations"] - 1))
+        cov["checker_cmd"] = a["checker_cmd"]
+        cov["trusted_base"] = a["trusted_base"] + P.get("trusted_base", [])
+        cov["theorems"] = a["theorems"]
+        for b in a["bad"]:
+            proof_broken.append("audit: " + b)
+        if tier == "thorough" and lake_ok:
+            lc = audit.run_leanchecker(P)
+            cov["leanchecker"] = lc["summary"]
+            for b in lc["bad"]:
+                proof_broken.append("leanchecker: " + b)
+        build.snapshot_model_exe()
 
     # ---------------------------------------------------------------- 3. harness
     exe, hmsg = (None, "not needed")
